@@ -12,6 +12,9 @@ import (
 	"sync"
 	"time"
 
+	"crypto/ed25519"
+
+	eddsa "github.com/IBM/TSS/mpc/binance/eddsa"
 	"github.com/IBM/TSS/mpc/bls"
 	"github.com/IBM/TSS/mpc/ps"
 	"github.com/IBM/TSS/threshold"
@@ -167,6 +170,8 @@ func stackExec(t int, c stackCase) []obj {
 			var inner tss.KeyGenerator
 			if c.Byz != nil && c.Byz.Node == id {
 				inner = newEvilBLS(r, id, c.Byz)
+			} else if c.Scheme == "eddsa" {
+				inner = eddsa.NewParty(party, scripted.Logger{})
 			} else if c.Scheme == "ps" {
 				inner = &ps.TPS{Logger: scripted.Logger{}, Party: party, Curve: math.Curves[1], MessageLength: msgLen}
 			} else {
@@ -176,11 +181,15 @@ func stackExec(t int, c stackCase) []obj {
 		}
 		send := func(msgType uint8, topic []byte, m []byte, to ...uint16) { r.send(id, msgType, topic, m, to...) }
 		mf := func() map[tss.UniversalID]tss.PartyID { return membership }
+		var sf tss.SignerFactory
+		if c.Scheme == "eddsa" {
+			sf = func(party uint16) tss.Signer { return eddsa.NewParty(party, scripted.Logger{}) }
+		}
 		if c.Mode == "silent" {
-			r.parties[id] = threshold.SilentScheme(uint16(id), scripted.Logger{}, kgf, nil, c.T, send, mf,
+			r.parties[id] = threshold.SilentScheme(uint16(id), scripted.Logger{}, kgf, sf, c.T, send, mf,
 				func([]byte, int) []uint16 { return all16 })
 		} else {
-			r.parties[id] = threshold.LoudScheme(uint16(id), scripted.Logger{}, kgf, nil, c.T, send, mf)
+			r.parties[id] = threshold.LoudScheme(uint16(id), scripted.Logger{}, kgf, sf, c.T, send, mf)
 		}
 	}
 	deadline := time.Duration(c.DeadlineMs) * time.Millisecond
@@ -212,6 +221,31 @@ func stackExec(t int, c stackCase) []obj {
 	got := map[int]kgres{}
 	hard := start.Add(deadline + 4*time.Second)
 	steps := 0
+	pump := func(done func() bool, poll func()) {
+		for !done() && time.Now().Before(hard) {
+			r.mu.Lock()
+			var nonEmpty [][2]int
+			for _, k := range r.order {
+				if len(r.links[k]) > 0 {
+					nonEmpty = append(nonEmpty, k)
+				}
+			}
+			var m *netMsg
+			if len(nonEmpty) > 0 {
+				k := nonEmpty[rng.Intn(len(nonEmpty))]
+				x := r.links[k][0]
+				r.links[k] = r.links[k][1:]
+				m = &x
+			}
+			r.mu.Unlock()
+			if m != nil {
+				r.parties[m.to].HandleMessage(m.m)
+			} else {
+				time.Sleep(200 * time.Microsecond)
+			}
+			poll()
+		}
+	}
 	for len(got) < len(ids) && time.Now().Before(hard) {
 		r.mu.Lock()
 		var nonEmpty [][2]int
@@ -290,6 +324,62 @@ func stackExec(t int, c stackCase) []obj {
 			es = res.err.Error()
 		}
 		r.log(obj{"e": "kgret", "node": id, "returned": true, "ok": res.err == nil && len(res.data) > 0, "err": es, "pub": publicPart(c.Scheme, res.data)})
+	}
+	// orchestrated signing (tss-lib adapter): every party of the signing session must obtain a signature for the requested digest
+	if c.Scheme == "eddsa" && len(got) == len(ids) {
+		allOK := true
+		for _, id := range ids {
+			if got[id].err != nil || len(got[id].data) == 0 {
+				allOK = false
+			}
+		}
+		if allOK {
+			for _, id := range ids {
+				r.parties[id].SetStoredData(got[id].data)
+			}
+			pk, perr := r.parties[ids[0]].ThresholdPK()
+			digest := make([]byte, 32)
+			rng.Read(digest)
+			if c.Seed%3 == 0 {
+				digest[0] = 0 // a digest with a leading zero byte
+			}
+			type sgres struct {
+				node int
+				sig  []byte
+				err  error
+			}
+			sres := make(chan sgres, len(ids))
+			hard = time.Now().Add(deadline + 4*time.Second)
+			for _, id := range ids {
+				id := id
+				ctx, cancel := context.WithTimeout(context.Background(), deadline)
+				cancels = append(cancels, cancel)
+				go func() {
+					sig, err := r.parties[id].Sign(ctx, digest, fmt.Sprintf("topic-%d", c.Seed))
+					sres <- sgres{id, sig, err}
+				}()
+			}
+			sgot := map[int]sgres{}
+			pump(func() bool { return len(sgot) == len(ids) }, func() {
+				select {
+				case x := <-sres:
+					sgot[x.node] = x
+				default:
+				}
+			})
+			for _, id := range ids {
+				x, ok := sgot[id]
+				es := ""
+				verified := false
+				if ok && x.err != nil {
+					es = x.err.Error()
+				}
+				if ok && x.err == nil && perr == nil && len(pk) == ed25519.PublicKeySize {
+					verified = ed25519.Verify(ed25519.PublicKey(pk), digest, x.sig)
+				}
+				r.log(obj{"e": "sgret", "node": id, "returned": ok, "ok": ok && x.err == nil, "verified": verified, "err": es})
+			}
+		}
 	}
 	// exercise the stored shares: every subset of size >= t, several digests
 	if c.Sign && c.Scheme == "bls" {
